@@ -126,6 +126,8 @@ struct Out {
     n: usize,
     /// compress ops emitted for every generated input (c10/c13: C08/C09 clauses, b10/b13: C10 bounds)
     ops: Vec<&'static str>,
+    /// quick-tier size divisor for the expensive random inputs (2 for the LZ13 stream: two passes, two profiles)
+    shrink: usize,
 }
 impl Out {
     fn compress(&mut self, period: usize, data: &[u8]) {
@@ -199,12 +201,12 @@ fn gen_compress(out: &mut Out, rng: &mut Rng, thorough: bool, scale: usize) {
     for n in [1usize, 2, 3, 7, 8, 9, 15, 16, 17, 63, 64, 65, 100, 1000] {
         out.compress(0, &rng.bytes(n));
     }
-    out.compress(0, &rng.bytes(if thorough { 20000 } else { 8000 }));
+    out.compress(0, &rng.bytes(if thorough { 20000 } else { 8000 / out.shrink }));
     // low entropy random data (many short and medium matches at all distances)
     let le = if thorough { 40 } else { 8 * scale };
     for _ in 0..le {
         let k = rng.range(2, 5);
-        let n = rng.range(20, if thorough { 12000 } else { 6000 }) as usize;
+        let n = rng.range(20, if thorough { 12000 } else { 6000 / out.shrink as u64 }) as usize;
         out.compress(0, &low_entropy(rng, n, k));
     }
     // Fibonacci words (self-similar)
@@ -220,7 +222,7 @@ fn gen_compress(out: &mut Out, rng: &mut Rng, thorough: bool, scale: usize) {
     // LZ-structured data with boundary distances and lengths
     let ls = if thorough { 150 } else { 14 * scale };
     for i in 0..ls {
-        let target = if thorough { rng.range(10, 60000) } else { rng.range(10, 20000) } as usize;
+        let target = if thorough { rng.range(10, 60000) } else { rng.range(10, 20000 / out.shrink as u64) } as usize;
         let alpha = *rng.pick(&[2u64, 4, 16, 256]);
         let d = lz_structured(rng, target, alpha);
         out.compress(0, &d);
@@ -293,6 +295,91 @@ fn gen_periodic(out: &mut Out, rng: &mut Rng, thorough: bool, few: bool) {
         };
         for n in lens {
             out.compress(p, &periodic(&pattern, n));
+        }
+    }
+}
+
+/// "cap, break, resume": a block T repeated so that `j` consecutive matches hit the format's length cap exactly
+/// (periodic part of b + j*cap bytes), then `k` foreign bytes (literals), then `r` bytes that resume the periodic
+/// data at the phase where the capped match stopped (variant 0), k bytes later (variant 1) or at the block
+/// start (variant 2), then a short random tail.  A compressor that carries state from a capped match across
+/// the literals (remembered source / displacement) goes wrong exactly here.
+fn cap_break_resume(rng: &mut Rng, cap: usize, b: usize, j: usize, k: usize, variant: usize, r: usize) -> Vec<u8> {
+    let t = rng.bytes(b);
+    let mut v: Vec<u8> = (0..b + j * cap).map(|i| t[i % b]).collect();
+    for i in 0..k {
+        let mut f = rng.next() as u8;
+        if f == t[(v.len()) % b] || (i == 0 && f == t[(b + j * cap) % b]) {
+            f ^= 0x5A;
+        }
+        v.push(f);
+    }
+    let start = match variant {
+        0 => b + j * cap,
+        1 => b + j * cap + k,
+        _ => 0,
+    };
+    v.extend((start..start + r).map(|i| t[i % b]));
+    // half of the inputs end with the resumed data (the look-ahead then is what is left of the input)
+    let tail = if rng.chance(1, 2) { 0 } else { rng.range(1, 3) as usize };
+    v.extend(rng.bytes(tail));
+    v
+}
+
+fn gen_cap_break(out: &mut Out, rng: &mut Rng, lz13: bool, thorough: bool) {
+    if !lz13 {
+        // LZ10: cap 18, everything is tiny: all combinations
+        for &b in &[9usize, 18, 19, 36] {
+            for j in 1..=3 {
+                for k in 1..=3 {
+                    for variant in 0..3 {
+                        for &r in &[5usize, 18, 25] {
+                            if thorough || rng.chance(1, 2) {
+                                let v = cap_break_resume(rng, 18, b, j, k, variant, r);
+                                out.compress(0, &v);
+                            }
+                        }
+                    }
+                }
+            }
+        }
+    } else {
+        // LZ13: cap 4096; quick takes a sample that always contains the effective block sizes 2048 and 4096
+        let mut combos: Vec<(usize, usize, usize, usize, usize)> = Vec::new();
+        for &b in &[2048usize, 4096, 4097, 8192, 1024, 1365] {
+            for j in 1..=3 {
+                for k in 1..=3 {
+                    for variant in 0..3 {
+                        for &r in &[100usize, 4096, 4150, 8200] {
+                            combos.push((b, j, k, variant, r));
+                        }
+                    }
+                }
+            }
+        }
+        if !thorough {
+            // the search cost of a random block is ~b^2/2 per pass: quick keeps to a few cheap combinations
+            rng.shuffle(&mut combos);
+            let mut picked: Vec<(usize, usize, usize, usize, usize)> = Vec::new();
+            let mut take = |pred: &dyn Fn(&(usize, usize, usize, usize, usize)) -> bool, n: usize| {
+                let sel: Vec<_> = combos.iter().filter(|c| pred(c)).take(n).cloned().collect();
+                picked.extend(sel);
+            };
+            for k in 1..=3 {
+                // resume where the cap stopped, for the whole look-ahead, every k
+                take(&|c| c.0 == 2048 && c.2 == k && c.3 == 0 && c.4 >= 4096, 1);
+            }
+            take(&|c| c.0 == 4096 && c.3 == 0 && c.4 >= 4096, 1);
+            take(&|c| c.0 == 2048 && c.3 == 0 && c.4 == 100, 1);
+            take(&|c| c.0 == 2048 && c.3 == 1, 1);
+            take(&|c| c.0 == 2048 && c.3 == 2, 1);
+            take(&|c| c.0 == 1024 || c.0 == 1365, 4);
+            take(&|c| c.0 == 4097 && c.4 <= 4150, 1);
+            combos = picked;
+        }
+        for (b, j, k, variant, r) in combos {
+            let v = cap_break_resume(rng, 4096, b, j, k, variant, r);
+            out.compress(0, &v);
         }
     }
 }
@@ -750,18 +837,21 @@ pub fn gen(seed: u64, tier: &str) -> Vec<String> {
 pub fn gen_for(pid: Option<&str>, seed: u64, tier: &str) -> Vec<String> {
     let mut rng = Rng::new(seed ^ 0x4c5a_0000);
     let thorough = tier == "thorough";
-    let mut out = Out { lines: Vec::new(), n: 0, ops: Vec::new() };
+    let mut out = Out { lines: Vec::new(), n: 0, ops: Vec::new(), shrink: 1 };
     match pid {
         Some("C08") => {
             out.ops = vec!["c10"];
             gen_compress(&mut out, &mut rng, thorough, 6);
             gen_periodic(&mut out, &mut rng, thorough, true);
+            gen_cap_break(&mut out, &mut rng, false, thorough);
             gen_top_of_domain(&mut out, &mut rng, "t10", thorough);
         }
         Some("C09") => {
             out.ops = vec!["c13"];
+            out.shrink = 2;
             gen_compress(&mut out, &mut rng, thorough, 3);
             gen_periodic(&mut out, &mut rng, thorough, true);
+            gen_cap_break(&mut out, &mut rng, true, thorough);
             gen_top_of_domain(&mut out, &mut rng, "t13", thorough);
         }
         Some("C10") => {
@@ -777,6 +867,8 @@ pub fn gen_for(pid: Option<&str>, seed: u64, tier: &str) -> Vec<String> {
         _ => {
             out.ops = vec!["c10", "c13", "b10", "b13"];
             gen_compress(&mut out, &mut rng, thorough, 1);
+            gen_cap_break(&mut out, &mut rng, false, thorough);
+            gen_cap_break(&mut out, &mut rng, true, thorough);
             gen_periodic(&mut out, &mut rng, thorough, true);
             gen_overlap(&mut out, &mut rng, thorough);
             gen_decode(&mut out, &mut rng, thorough, 1);
